@@ -31,7 +31,7 @@ EXPLANATION = (
     "permutation; shrink_typed_dict_types for every combination of <=3 TypedDicts over <=2 keys (absent/required/optional) "
     "x limit 0..3 in every order: every value type of every key reaches the merged field or the Dict fallback. "
     "Added: the four inference functions are also interpreted TOGETHER on a grammar of ~90 small concrete values (atoms, class objects, list/tuple/set/dict/defaultdict of depth <= 2, lists of dicts, empty containers, non-string keys) x limits and on ~700 merged pairs, and the result is judged by an oracle written from the property; two-call histories sharing module state (a memo with an unsound key is reported); compat.types_equal decided by interpretation. "
-    "Not decided: membership for values outside the bounded grammar; termination on cyclic containers."
+    "Values that contain themselves are interpreted too (R-C04.9; the RecursionError they cause is a recorded finding). Not decided: membership for values outside the bounded grammar."
 )
 
 KIND = {"builtin:list": "List", "builtin:set": "Set", "builtin:tuple": "Tuple", "mod:collections.defaultdict": "DefaultDict"}
